@@ -168,6 +168,8 @@ enum Prov {
     Slurm(Option<String>),
     /// Published under two TALs and asserted locally as well (a chain of three sources).
     Chain(String, String),
+    /// Asserted by several local exceptions (the same assertion in several files) and by `n_pub` published objects.
+    Multi(usize, Vec<Option<String>>),
 }
 
 fn time(y: i32) -> Time { Time::utc(y, 1, 2, 3, 4, 5) }
@@ -190,6 +192,13 @@ fn info(p: &Prov, n: usize) -> PayloadInfo {
             let mut res = PayloadInfo::from(publish_info(name, n));
             res.add_published(publish_info("other", n + 100));
             res.add_local(Arc::new(ExceptionInfo { path: None, comment: Some(comment.clone()) }));
+            res
+        }
+        Prov::Multi(n_pub, comments) => {
+            let exc = |c: &Option<String>| Arc::new(ExceptionInfo { path: None, comment: c.clone() });
+            let mut res = if *n_pub > 0 { PayloadInfo::from(publish_info("multi", n)) } else { PayloadInfo::from(exc(&comments[0])) };
+            for i in 1..*n_pub { res.add_published(publish_info("other", n + 100 * i)); }
+            for c in comments.iter().skip(if *n_pub > 0 { 0 } else { 1 }) { res.add_local(exc(c)); }
             res
         }
     }
@@ -724,8 +733,18 @@ impl C21<'_> {
         let lab = |n: usize| self.benign[(idx + n) % self.benign.len()].clone();
         let items: Vec<(&UItem, Prov)> = d.iter().flat_map(|(t, v)| v.iter().map(move |id| (*t, *id))).enumerate().map(|(n, key)| {
             let it = &self.uni.items[&key];
-            let p = if it.prov != "tal" { Prov::Slurm(Some(lab(n))) }
+            // source chains of every shape: [E], [E,E], [E,E,E] (the same assertion in several exception files),
+            // [P], [P,P,E], [P,E,E], [P,P]
+            let p = if it.prov != "tal" {
+                    match (idx + n) % 4 {
+                        1 => Prov::Multi(0, vec![Some(lab(n)), Some(lab(n + 1))]),
+                        2 => Prov::Multi(0, vec![Some(lab(n)), None, Some(lab(n + 2))]),
+                        _ => Prov::Slurm(Some(lab(n))),
+                    }
+                }
                 else if idx % 5 == 0 { Prov::Chain(format!("ta{}", lab(n)), lab(n + 1)) }
+                else if idx % 5 == 1 && n % 2 == 0 { Prov::Multi(1, vec![Some(lab(n)), Some(lab(n + 1))]) }
+                else if idx % 5 == 2 && n % 2 == 1 { Prov::Multi(2, vec![]) }
                 else { Prov::Tal(format!("ta{}", lab(n))) };
             (it, p)
         }).collect();
